@@ -116,7 +116,15 @@ func (m *MainLoop) run(ctx context.Context) {
 			shutdown = true
 
 		case message := <-m.messagesChannel:
+			if message == nil {
+				m.logger.Info("LHFLOW LHMSG MAINLOOP - IGNORING nil message")
+				continue
+			}
 			parsedMessage := interfaces.ToConsensusMessage(message)
+			if parsedMessage == nil {
+				m.logger.Info("LHFLOW LHMSG MAINLOOP - IGNORING message whose content is not a known consensus message")
+				continue
+			}
 
 			m.logger.Debug("LHFLOW LHMSG MAINLOOP RECEIVED %v from %v for H=%d V=%d", parsedMessage.MessageType(), parsedMessage.SenderMemberId(), parsedMessage.BlockHeight(), parsedMessage.View())
 
